@@ -226,6 +226,10 @@ class ExprGen:
     # ---- typed generation ----
     def gen(self, ty=None, depth=None):
         d = self.depth0 if depth is None else depth
+        if ty is None and depth is None and self.r.random() < 0.06:
+            # boundary stream: string search with self-overlapping needles
+            h, n = self.g_search(d)
+            return (("fn", self.r.choice(["contains", "substring-before", "substring-after", "starts-with"]), [h, n]))
         ty = ty or self.r.choice(["nodes", "nodes", "num", "bool", "str", "any"])
         if ty == "any":
             ty = self.r.choice(["nodes", "num", "bool", "str"])
@@ -264,6 +268,9 @@ class ExprGen:
         if k < 0.7:
             return ("fn", "boolean", [self.gen("any", d - 1)])
         if k < 0.8:
+            if r.random() < 0.5:
+                h, n = self.g_search(d)
+                return ("fn", r.choice(["contains", "contains", "starts-with"]), [h, n])
             return ("fn", r.choice(["contains", "starts-with"]), [self.gen("str", d - 1), self.gen("str", d - 1)])
         if k < 0.85:
             return ("fn", "lang", [("lit", r.choice(["en", "EN", "de", "en-us", ""]))])
@@ -298,8 +305,30 @@ class ExprGen:
             return ("var", r.choice(self.vars_of("num")))
         return ("num", r.choice(["0", "1", "2", "3", "4", "0.5", "2.5", "-"[:0] + "9"]))
 
+    def ab_lit(self, maxlen=8):
+        """strings over a two/three letter alphabet: self-overlapping needles, partial matches before
+        the real occurrence, repeated characters for translate()"""
+        r = self.r
+        alpha = r.choice(["ab", "ab", "abc", "a", "-> ", "ab \t\n"])
+        return ("lit", "".join(r.choice(alpha) for _ in range(r.randrange(0, maxlen + 1))))
+
+    def g_search(self, d):
+        """haystack/needle pairs where the needle occurs (so the search has something to miss)"""
+        r = self.r
+        needle = self.ab_lit(4)[1]
+        pre, post = self.ab_lit(5)[1], self.ab_lit(3)[1]
+        hay = pre + (needle if r.random() < 0.7 else needle[:-1]) + post
+        return ("lit", hay), ("lit", needle)
+
     def g_str(self, d):
         r = self.r
+        if d > 0 and r.random() < 0.12:
+            h, n = self.g_search(d)
+            return ("fn", r.choice(["substring-before", "substring-after"]), [h, n])
+        if d > 0 and r.random() < 0.05:
+            return ("fn", "translate", [self.ab_lit(), self.ab_lit(4), self.ab_lit(4)])
+        if d > 0 and r.random() < 0.04:
+            return ("fn", "normalize-space", [self.ab_lit(10)])
         if d <= 0:
             return ("lit", r.choice(["", "a", "b", "ab", "abc", "1", "2", " 1 ", "x y", "12345", "NaN", "-0", "é", "\U0001d4b3z"]))
         k = r.random()
